@@ -114,6 +114,7 @@ type gstate struct {
 	holes   []hole
 	label   int
 	names   []string
+	common  []string
 }
 
 func (s *gstate) addTarget(p model.Pos, k model.Kind, isHole bool) int {
@@ -126,7 +127,12 @@ func (s *gstate) newLabel(prefix string) string {
 	return s.o.LabelPrefix + prefix + strconv.Itoa(s.label)
 }
 
+// name draws an element or property name. Half of the time it comes from a short per-graph list, so that the
+// same names (hence the same fragment-only $ref texts) occur in several documents, as in real multi-file specs.
 func (s *gstate) name(label string) string {
+	if len(s.common) > 0 && rapid.Bool().Draw(s.t, "commonname") {
+		return s.common[Uniform(s.t, label, len(s.common))]
+	}
 	return rapid.SampledFrom(s.names).Draw(s.t, label)
 }
 
@@ -276,7 +282,11 @@ func (s *gstate) genPathItem(at model.Pos, refPct int) map[string]any {
 			op["parameters"] = arr
 		}
 		rs := map[string]any{}
-		for _, code := range []string{"default", "200", "404"} {
+		// (besides the usual ones, a status code drawn from the whole range: code tables must not be assumed complete)
+		for _, code := range []string{"default", "200", "404", strconv.Itoa(100 + Uniform(t, "oddcode", 500))} {
+			if _, dup := rs[code]; dup {
+				continue // (the drawn code may be 200 or 404 again: positions registered for the first one must stay valid)
+			}
 			if Pct(t, "code", 35) {
 				rs[code] = s.genResponse(at.Child(opn, "responses", code), 50)
 			}
@@ -386,7 +396,13 @@ func Spell(t *rapid.T, hdoc string, tp model.Pos, allowed Spelling) string {
 		// an equivalent, non-canonical absolute URL: redundant dot segments, upper-case scheme/host, default port
 		u := *tu
 		dir, file := u.Path[:strings.LastIndex(u.Path, "/")+1], pathBase(u.Path)
-		switch Uniform(t, "messykind", 4) {
+		switch Uniform(t, "messykind", 5) {
+		case 4:
+			if u.Scheme == "file" {
+				// for a local file the query is irrelevant (the package says so for base locations): same document
+				return u.String() + []string{"?", "?rev=2"}[Uniform(t, "filequery", 2)] + frag
+			}
+			u.Path = dir + "./" + file
 		case 0:
 			u.Path = dir + "./" + file
 		case 1:
@@ -417,6 +433,9 @@ func Graph(t *rapid.T, o GraphOpts) GraphCase {
 	s := &gstate{t: t, o: o, names: NamePool}
 	if o.QuoteNames {
 		s.names = append(append([]string{}, NamePool...), QuoteNames...)
+	}
+	for i, n := 0, 1+Uniform(t, "ncommon", 2); i < n; i++ {
+		s.common = append(s.common, s.names[Uniform(t, "common", len(s.names))])
 	}
 	if o.MaxElems == 0 {
 		o.MaxElems = 3
@@ -537,6 +556,18 @@ func Graph(t *rapid.T, o GraphOpts) GraphCase {
 			if len(cands) == 0 {
 				s.plug(h)
 				continue
+			}
+		}
+		if h.k == model.KSchema && Pct(t, "prefertopdefs", 35) {
+			// as in real specifications, many schema $refs designate a top-level definition
+			var tops []target
+			for _, c := range cands {
+				if strings.HasPrefix(c.p.Ptr, "/definitions/") && strings.Count(c.p.Ptr, "/") == 2 {
+					tops = append(tops, c)
+				}
+			}
+			if len(tops) > 0 {
+				cands = tops
 			}
 		}
 		if h.k != model.KSchema && Pct(t, "prefercontent", 60) {
